@@ -108,7 +108,11 @@ func digestMarshal(st *trie.SlimTrie) string {
 		return "ERR(" + err.Error() + ")"
 	}
 	h := sha256.Sum256(out)
-	return fmt.Sprintf("%d:%x", len(out), h[:8])
+	// the advertised size belongs to the same observation: it must describe
+	// the bytes Marshal returns now, not those of an earlier state
+	psz := -1
+	try(func() { psz = proto.Size(st) })
+	return fmt.Sprintf("%d:%x:size=%d", len(out), h[:8], psz)
 }
 
 type fullDigest struct {
@@ -238,6 +242,7 @@ func runC05RoundTrip(ctx *Ctx, idx int) {
 	enc := vals.Encoder()
 	opts := allOptSets()
 	for oi, o := range opts {
+		ctx.Beat()
 		if (oi+idx)%2 == 1 && !lc.Exh && n > 300 {
 			continue // large sets: half of the option sets per case, rotating
 		}
@@ -499,6 +504,7 @@ func runC05History(ctx *Ctx, p int, firstOp int) {
 	}
 	for si, seq := range seqs {
 		ctx.Eval()
+		ctx.Beat()
 		st, _ := trie.NewSlimTrie(encode.I32{}, nil, nil)
 		// model state: -1 new/empty, -2 empty after failed load, i = stream i
 		state := -1
@@ -506,8 +512,15 @@ func runC05History(ctx *Ctx, p int, firstOp int) {
 		var opErr error
 		var pv interface{}
 		var stack string
+		// every other history reads through every kind of API after each
+		// step: a result memoised by a read and not invalidated by the next
+		// load or Reset shows up as residue
+		touch := si%2 == 1
 		for _, op := range seq {
 			names = append(names, opName(pool, op))
+			if touch {
+				names[len(names)-1] += "+reads"
+			}
 			pv, stack = try(func() {
 				switch {
 				case op < 8:
@@ -521,6 +534,20 @@ func runC05History(ctx *Ctx, p int, firstOp int) {
 			})
 			if pv != nil {
 				break
+			}
+			if touch {
+				try(func() {
+					_ = st.String()
+					_ = st.Stat()
+					st.Marshal()
+					_ = proto.Size(st)
+					for _, q := range pool.qs[:4] {
+						st.Get(q)
+						st.Search(q)
+					}
+					st.ScanFrom("", true, true, func(k, v []byte) bool { return false })
+					st.NewIter("", true, false)()
+				})
 			}
 			if op == 16 {
 				state = -1
@@ -550,7 +577,7 @@ func runC05History(ctx *Ctx, p int, firstOp int) {
 		if state == -3 {
 			continue
 		}
-		got := digestAll(st, pool.qs, pool.starts, si%6 == 0)
+		got := digestAll(st, pool.qs, pool.starts, si%3 == 0)
 		var want fullDigest
 		all := true
 		switch state {
@@ -821,6 +848,9 @@ func runC07(ctx *Ctx, idx int) {
 	useGuard := ctx.Tier == "thorough" || idx%4 == 0
 	st := mkOld()
 	for ci, c := range cuts {
+		if ci&255 == 0 {
+			ctx.Beat()
+		}
 		var buf []byte
 		var g *Guard
 		if useGuard && (n <= 4096 || ci%16 == 0) {
@@ -1259,7 +1289,7 @@ func runC20(ctx *Ctx, idx int) {
 func init() {
 	register(&CheckDef{
 		ID: "C05", Level: "exploration",
-		Rule: "two case kinds: (a) (key list, value list+encoder) x option sets: Marshal of 5 independent builds from equal (deep-copied) input byte-identical, Marshal twice equal, proto.Size == len, proto.Marshal == Marshal, and the instance loaded through Unmarshal / proto.Unmarshal gives the same battery digest as the fresh one (Get/GetID/RangeGet/Search over Q(K) false positives included, scans or their refusal, Stat, String, re-Marshal bytes); (b) histories: for a pool of 8 streams sharing one encoder (empty, small, large complete, inner-prefix, 0.5.10 allpref, three-section, truncated, incompatible) every sequence of length <=3 over {Unmarshal(s), proto.Unmarshal(s), Reset} is applied to one instance and its digest compared with a brand-new instance given only the final state (after a failed load: lookups and scans only); non-trivial = key list with >=2 keys, or a history of length >=2; distinct by hash",
+		Rule:     "two case kinds: (a) (key list, value list+encoder) x option sets: Marshal of 5 independent builds from equal (deep-copied) input byte-identical, Marshal twice equal, proto.Size == len, proto.Marshal == Marshal, and the instance loaded through Unmarshal / proto.Unmarshal gives the same battery digest as the fresh one (Get/GetID/RangeGet/Search over Q(K) false positives included, scans or their refusal, Stat, String, re-Marshal bytes); (b) histories: for a pool of 8 streams sharing one encoder (empty, small, large complete, inner-prefix, 0.5.10 allpref, three-section, truncated, incompatible) every sequence of length <=3 over {Unmarshal(s), proto.Unmarshal(s), Reset} is applied to one instance (in every other history each step is followed by reads through String, Stat, Marshal, proto.Size, lookups and scans, so that memoised results would surface) and its digest compared with a brand-new instance given only the final state (after a failed load: lookups and scans only); non-trivial = key list with >=2 keys, or a history of length >=2; distinct by hash",
 		NumCases: c05NumCases,
 		Run: func(ctx *Ctx, idx int) {
 			ng := c05NumGen(ctx.Tier)
@@ -1287,7 +1317,7 @@ func init() {
 	})
 	register(&CheckDef{
 		ID: "C07", Level: "fault_enumeration",
-		Rule: "case = one valid stream (current format under a random option set, 0.5.10/0.5.11 nopref/innpref/allpref, three-section variants) of a generated key/value list; faults: Unmarshal(stream[:cut]) for EVERY cut 0..len-1 (streams <= 64 KiB; larger: every cut in each header, the first/last 64 bytes of each body and 2000 seeded interior cuts), into an instance that holds other data, part of them from a read-only buffer right-aligned against a guard page; and the header version replaced by each string of a fixed list (released 0.5.x outside the compatible set, successors, 0.6+, 1.0.1+, 2.x, pre-releases, malformed, leading zeros, embedded NUL, 16 bytes unterminated, non-UTF8) plus 30 seeded strings; oracle: cut => non-nil error, no panic; incompatible version => errors.Cause == ErrIncompatible (also via proto.Unmarshal); afterwards every lookup reports not-found/nil/-1 and every scan entry point yields nothing; build-metadata variants of compatible versions may go either way; non-trivial = stream with a body; distinct by stream hash",
+		Rule:          "case = one valid stream (current format under a random option set, 0.5.10/0.5.11 nopref/innpref/allpref, three-section variants) of a generated key/value list; faults: Unmarshal(stream[:cut]) for EVERY cut 0..len-1 (streams <= 64 KiB; larger: every cut in each header, the first/last 64 bytes of each body and 2000 seeded interior cuts), into an instance that holds other data, part of them from a read-only buffer right-aligned against a guard page; and the header version replaced by each string of a fixed list (released 0.5.x outside the compatible set, successors, 0.6+, 1.0.1+, 2.x, pre-releases, malformed, leading zeros, embedded NUL, 16 bytes unterminated, non-UTF8) plus 30 seeded strings; oracle: cut => non-nil error, no panic; incompatible version => errors.Cause == ErrIncompatible (also via proto.Unmarshal); afterwards every lookup reports not-found/nil/-1 and every scan entry point yields nothing; build-metadata variants of compatible versions may go either way; non-trivial = stream with a body; distinct by stream hash",
 		NumCases:      c07NumCases,
 		Run:           runC07,
 		MinNontrivial: func(tier string) int { return 100 },
@@ -1300,7 +1330,7 @@ func init() {
 	})
 	register(&CheckDef{
 		ID: "C20", Level: "exploration",
-		Rule: "case = (key list, value list, option struct, stream layout current / 0.5.10 / three-section); monitors: (1) snapshots of keys (deep), values, the option struct and the pointees of its pointers compared after NewSlimTrie for an accepted and for a rejected (out-of-order) input; the input buffer overwritten with 0x00 / 0xff / noise after Unmarshal and the Marshal output overwritten likewise, battery digest (lookups, scans, Stat, String, Marshal) and re-Marshal bytes compared before/after; (2) guard pages: the stream lives in an mmap region between PROT_NONE pages, PROT_READ during Unmarshal and PROT_NONE afterwards while the battery runs; key bytes and the string-header array of the key slice live in PROT_READ mappings during build (also for a rejected input); faults are turned into recoverable panics; non-trivial = at least 2 keys; distinct by hash of keys, values and layout",
+		Rule:          "case = (key list, value list, option struct, stream layout current / 0.5.10 / three-section); monitors: (1) snapshots of keys (deep), values, the option struct and the pointees of its pointers compared after NewSlimTrie for an accepted and for a rejected (out-of-order) input; the input buffer overwritten with 0x00 / 0xff / noise after Unmarshal and the Marshal output overwritten likewise, battery digest (lookups, scans, Stat, String, Marshal) and re-Marshal bytes compared before/after; (2) guard pages: the stream lives in an mmap region between PROT_NONE pages, PROT_READ during Unmarshal and PROT_NONE afterwards while the battery runs; key bytes and the string-header array of the key slice live in PROT_READ mappings during build (also for a rejected input); faults are turned into recoverable panics; non-trivial = at least 2 keys; distinct by hash of keys, values and layout",
 		NumCases:      c20NumCases,
 		Run:           runC20,
 		MinNontrivial: func(tier string) int { return 200 },
